@@ -123,12 +123,13 @@ Proof. destruct r; cbn; try discriminate. intro H; eauto. Qed.
 
 Lemma verify_ok_inv vo p out :
   verify vo p = Ok out ->
-  p_sig_ok p = true /\ NoDup (p_discs p) /\
+  p_sig_ok p = true /\ payload_time_ok vo (p_payload p) = true /\ NoDup (p_discs p) /\
   verify_disclosures (p_payload p) (p_discs p) = Ok tt /\
   holder_verification vo (p_payload p) (p_hb p) = Ok tt /\
   exists a, get_alg (p_payload p) = Ok a /\ resolve true (map (digest a) (p_discs p)) (p_payload p) = Ok out.
 Proof.
   unfold verify. destruct (p_sig_ok p); cbn; [|discriminate].
+  destruct (payload_time_ok vo (p_payload p)) eqn:Ht; cbn; [|discriminate].
   destruct (nodupd (p_discs p)) eqn:Hd; cbn; [|discriminate].
   intro H. apply bind_ok in H as [[] [H1 H]]. apply bind_ok in H as [[] [H2 H]]. apply bind_ok in H as [a [H3 H]].
   repeat split; try assumption. - apply nodupd_NoDup; assumption. - exists a; split; assumption.
@@ -209,7 +210,7 @@ Lemma accept_committed vo p out :
   verify vo p = Ok out ->
   exists a, get_alg (p_payload p) = Ok a /\ forall d, In d (p_discs p) -> occurs (digest a d) (p_payload p).
 Proof.
-  intro H. apply verify_ok_inv in H as (_ & _ & Hv & _ & _).
+  intro H. apply verify_ok_inv in H as (_ & _ & _ & Hv & _ & _).
   apply verify_disclosures_inv in Hv as (a & Ha & _ & _ & Hall).
   exists a; split; [assumption|]. intros d Hd. eapply collect_occurs. apply Hall; assumption.
 Qed.
@@ -217,18 +218,21 @@ Qed.
 Lemma reject_duplicate vo p : ~ NoDup (p_discs p) -> is_ok (verify vo p) = false.
 Proof.
   intro H. destruct (verify vo p) eqn:E; try reflexivity.
-  apply verify_ok_inv in E as (_ & Hn & _). contradiction.
+  apply verify_ok_inv in E as (_ & _ & Hn & _). contradiction.
 Qed.
 
 Lemma reject_malformed vo p d : In d (p_discs p) -> (d_e d < 2)%N -> is_ok (verify vo p) = false.
 Proof.
   intros Hd He. destruct (verify vo p) eqn:E; try reflexivity.
-  apply verify_ok_inv in E as (_ & _ & Hv & _). apply verify_disclosures_inv in Hv as (a0 & _ & Hf & _).
+  apply verify_ok_inv in E as (_ & _ & _ & Hv & _). apply verify_disclosures_inv in Hv as (a0 & _ & Hf & _).
   rewrite Forall_forall in Hf. specialize (Hf d Hd). lia.
 Qed.
 
 Lemma reject_bad_signature vo p : p_sig_ok p = false -> is_ok (verify vo p) = false.
 Proof. intro H. unfold verify. rewrite H. reflexivity. Qed.
+
+Lemma reject_bad_time vo p : payload_time_ok vo (p_payload p) = false -> is_ok (verify vo p) = false.
+Proof. intro H. destruct (verify vo p) eqn:E; try reflexivity. apply verify_ok_inv in E as (_ & Ht & _). congruence. Qed.
 
 (* ---------- holder binding ---------- *)
 Lemma binding_inv vo p out :
@@ -237,22 +241,24 @@ Lemma binding_inv vo p out :
   | None => vo_required vo = false
   | Some h =>
       get_cnf_key (p_payload p) = Ok (hb_key h) /\ hb_ok h = true /\
+      time_ok (vo_now vo) (vo_leeway vo) (hb_iat h) None None = true /\
       (vo_nonce vo = "" \/ vo_nonce vo = hb_nonce h) /\ (vo_aud vo = "" \/ vo_aud vo = hb_aud h)
   end.
 Proof.
-  intro H. apply verify_ok_inv in H as (_ & _ & _ & Hh & _).
+  intro H. apply verify_ok_inv in H as (_ & _ & _ & _ & Hh & _).
   unfold holder_verification in Hh. destruct (p_hb p) as [h|].
   - apply bind_ok in Hh as [k [Hk Hh]].
-    destruct (Z.eqb k (hb_key h)) eqn:E1; cbn in Hh; [|discriminate].
-    destruct (hb_ok h) eqn:E2; cbn in Hh; [|discriminate].
-    apply Z.eqb_eq in E1. subst k. split; [assumption|]. split; [reflexivity|].
-    destruct (String.eqb (vo_nonce vo) "") eqn:E3; cbn in Hh.
+    destruct (Z.eqb k (hb_key h)) eqn:E1; cbn [negb andb] in Hh; [|discriminate].
+    destruct (hb_ok h) eqn:E2; cbn [negb andb] in Hh; [|discriminate].
+    destruct (time_ok (vo_now vo) (vo_leeway vo) (hb_iat h) None None) eqn:E7; cbn [negb andb] in Hh; [|discriminate].
+    apply Z.eqb_eq in E1. subst k. split; [assumption|]. split; [reflexivity|]. split; [reflexivity|].
+    destruct (String.eqb (vo_nonce vo) "") eqn:E3; cbn [negb andb] in Hh.
     + apply String.eqb_eq in E3. split; [left; assumption|].
-      destruct (String.eqb (vo_aud vo) "") eqn:E5; cbn in Hh; [apply String.eqb_eq in E5; left; assumption|].
-      destruct (String.eqb (vo_aud vo) (hb_aud h)) eqn:E6; cbn in Hh; [|discriminate]. apply String.eqb_eq in E6. right; assumption.
-    + destruct (String.eqb (vo_nonce vo) (hb_nonce h)) eqn:E4; cbn in Hh; [|discriminate].
+      destruct (String.eqb (vo_aud vo) "") eqn:E5; cbn [negb andb] in Hh; [apply String.eqb_eq in E5; left; assumption|].
+      destruct (String.eqb (vo_aud vo) (hb_aud h)) eqn:E6; cbn [negb andb] in Hh; [|discriminate]. apply String.eqb_eq in E6. right; assumption.
+    + destruct (String.eqb (vo_nonce vo) (hb_nonce h)) eqn:E4; cbn [negb andb] in Hh; [|discriminate].
       apply String.eqb_eq in E4. split; [right; assumption|].
-      destruct (String.eqb (vo_aud vo) "") eqn:E5; cbn in Hh; [apply String.eqb_eq in E5; left; assumption|].
-      destruct (String.eqb (vo_aud vo) (hb_aud h)) eqn:E6; cbn in Hh; [|discriminate]. apply String.eqb_eq in E6. right; assumption.
+      destruct (String.eqb (vo_aud vo) "") eqn:E5; cbn [negb andb] in Hh; [apply String.eqb_eq in E5; left; assumption|].
+      destruct (String.eqb (vo_aud vo) (hb_aud h)) eqn:E6; cbn [negb andb] in Hh; [|discriminate]. apply String.eqb_eq in E6. right; assumption.
   - destruct (vo_required vo); [discriminate|reflexivity].
 Qed.
